@@ -463,3 +463,375 @@ func ruleC11_8(c *Ctx, r *Rep) {
 	}
 	r.Floor("C11.8", n, 1)
 }
+
+// ---------------------------------------------------------------------------
+// C03.5: the ack ids of a request reach the ack / modify-deadline actions complete and in place, or the request
+// fails. The values handed to NewAckDeliveries, DelayDeliveriesParams.IDs and the stream request's Ack / Delay lists
+// are produced by a conversion whose every uuid.Parse error is returned (no id is skipped), which writes element i
+// from input i, and which returns the whole result slice (not a shorter window of it).
+func ruleC03_5(c *Ctx, r *Rep) {
+	type sink struct {
+		fn   string
+		what string
+		vals func(f *ssa.Function) []ssa.Value
+	}
+	fieldStoreVals := func(pkg, typ, field string) func(f *ssa.Function) []ssa.Value {
+		return func(f *ssa.Function) []ssa.Value {
+			var out []ssa.Value
+			for _, st := range fieldStores(f, pkg, typ)[field] {
+				out = append(out, st.Val)
+			}
+			return out
+		}
+	}
+	sinks := []sink{
+		{"(*services.subscriberServer).Acknowledge", "ack ids", func(f *ssa.Function) []ssa.Value {
+			var out []ssa.Value
+			for _, ci := range callsIn(f, true, func(cal *ssa.Function, _ ssa.CallInstruction) bool { return cal.Name() == "NewAckDeliveries" }) {
+				out = append(out, ci.Common().Args[0])
+			}
+			return out
+		}},
+		{"(*services.subscriberServer).ModifyAckDeadline", "modify-deadline ids", fieldStoreVals(modPath+"/actions", "DelayDeliveriesParams", "IDs")},
+		{"(*services.streamWrapper).adaptIn", "stream ack ids", fieldStoreVals(modPath+"/actions", "MessageStreamRequest", "Ack")},
+		{"(*services.streamWrapper).adaptIn", "stream modify-deadline ids", fieldStoreVals(modPath+"/actions", "MessageStreamRequest", "Delay")},
+	}
+	n := 0
+	for _, sk := range sinks {
+		f := r.Anchor("C03.5", sk.fn)
+		if f == nil {
+			continue
+		}
+		vals := sk.vals(f)
+		key := "C03.5:" + strings.ReplaceAll(sk.what, " ", "-") + "@" + sk.fn
+		if len(vals) == 0 {
+			r.Fail("C03.5", key, f.Pos(), "the "+sk.what+" are no longer handed to the action")
+			continue
+		}
+		for _, v := range vals {
+			n++
+			// the producing conversion
+			var conv *ssa.Call
+			pv := resolve(v)
+			if ex, ok := pv.(*ssa.Extract); ok {
+				conv, _ = ex.Tuple.(*ssa.Call)
+			} else if cc, ok := pv.(*ssa.Call); ok {
+				conv = cc
+			}
+			if conv == nil || conv.Call.StaticCallee() == nil || !c.inModule(conv.Call.StaticCallee()) {
+				r.Undecided("C03.5", key, v.Pos(), "the "+sk.what+" are not produced by a module conversion function the rule can inspect")
+				continue
+			}
+			ok, why := completeUUIDConversion(c, conv.Call.StaticCallee(), 0)
+			// and its error fails the request
+			if ok && conv.Call.StaticCallee().Signature.Results().Len() == 2 {
+				var errV ssa.Value
+				if refs := conv.Referrers(); refs != nil {
+					for _, u := range *refs {
+						if ex, isE := u.(*ssa.Extract); isE && ex.Index == 1 {
+							errV = ex
+						}
+					}
+				}
+				if errV == nil {
+					ok, why = false, "the conversion's error is discarded"
+				} else if h, w := errHandled(f, errV); !h {
+					ok, why = false, "the conversion's error does not fail the request: "+w
+				}
+			}
+			r.Check("C03.5", key, conv.Pos(), ok, "every id is converted in place or the request fails", "the "+sk.what+" of a request do not all reach the action: "+why+" — an Acknowledge that reports success leaves some of its messages unacknowledged")
+		}
+	}
+	r.Floor("C03.5", n, 4)
+}
+
+// completeUUIDConversion: F converts its []string parameter to []uuid.UUID completely and positionally.
+func completeUUIDConversion(c *Ctx, f *ssa.Function, depth int) (bool, string) {
+	res := f.Signature.Results()
+	if res.Len() != 2 || !isErrorType(res.At(1).Type()) {
+		return false, "the conversion cannot report a malformed id (no error result)"
+	}
+	nParse := 0
+	for _, ci := range callsIn(f, false, func(cal *ssa.Function, _ ssa.CallInstruction) bool { return true }) {
+		cal := ci.Common().StaticCallee()
+		call, isCall := ci.(*ssa.Call)
+		if !isCall {
+			continue
+		}
+		if cal.Name() == "Parse" && strings.HasSuffix(fnPkgPath(cal), "google/uuid") {
+			nParse++
+			var errV ssa.Value
+			if refs := call.Referrers(); refs != nil {
+				for _, u := range *refs {
+					if ex, isE := u.(*ssa.Extract); isE && ex.Index == 1 {
+						errV = ex
+					}
+				}
+			}
+			if errV == nil {
+				return false, "a parse error is discarded"
+			}
+			if h, w := errHandled(f, errV); !h {
+				return false, "a malformed id is skipped instead of failing the conversion (" + w + ")"
+			}
+			// on the non-nil edge the function must return (not continue with the next element)
+			if refs := errV.Referrers(); refs != nil {
+				for _, u := range *refs {
+					bo, isB := u.(*ssa.BinOp)
+					if !isB || !isNilConst(bo.Y) {
+						continue
+					}
+					if br := bo.Referrers(); br != nil {
+						for _, x := range *br {
+							iff, isIf := x.(*ssa.If)
+							if !isIf {
+								continue
+							}
+							nonNil := iff.Block().Succs[0]
+							if bo.Op == token.EQL {
+								nonNil = iff.Block().Succs[1]
+							}
+							leaves := false
+							for _, in := range nonNil.Instrs {
+								if _, isRet := in.(*ssa.Return); isRet {
+									leaves = true
+								}
+							}
+							if !leaves {
+								return false, "after a malformed id the conversion carries on with the next element"
+							}
+						}
+					}
+				}
+			}
+			// positional: the parsed string is values[i] and the result is stored to out[i] with the same i
+			var inIdx, outIdx ssa.Value
+			if u, ok := call.Call.Args[0].(*ssa.UnOp); ok {
+				if ia, ok := u.X.(*ssa.IndexAddr); ok {
+					inIdx = ia.Index
+				}
+			}
+			if ex, ok := call.Call.Args[0].(*ssa.Extract); ok {
+				// for i, s := range values: s is the range value; the index is extract #0 of the same Next — go/ssa
+				// lowers slice ranges to index loops, so this form is for completeness
+				_ = ex
+			}
+			if refs := call.Referrers(); refs != nil {
+				for _, u := range *refs {
+					if ex, isE := u.(*ssa.Extract); isE && ex.Index == 0 {
+						if er := ex.Referrers(); er != nil {
+							for _, x := range *er {
+								if st, isSt := x.(*ssa.Store); isSt {
+									if ia, isIA := st.Addr.(*ssa.IndexAddr); isIA {
+										outIdx = ia.Index
+									}
+								}
+							}
+						}
+					}
+				}
+			}
+			if inIdx == nil || outIdx == nil || inIdx != outIdx {
+				return false, "element i of the result is not the conversion of element i of the request"
+			}
+		}
+	}
+	if nParse == 0 {
+		// a wrapper that hands the work (and the verdict) to another module conversion
+		if depth < 2 {
+			for _, ci := range callsIn(f, false, func(cal *ssa.Function, _ ssa.CallInstruction) bool {
+				return c.inModule(cal) && len(cal.Blocks) > 0 && cal.Signature.Results().Len() == 2
+			}) {
+				inner, isCall := ci.(*ssa.Call)
+				if !isCall {
+					continue
+				}
+				if ok, _ := completeUUIDConversion(c, inner.Call.StaticCallee(), depth+1); !ok {
+					continue
+				}
+				// every return hands on the inner results (ids as they are; a nil error only under the inner nil error)
+				good := true
+				for _, ret := range returnsOf(f) {
+					r0, r1 := resolve(retResult(ret, 0)), retResult(ret, 1)
+					ex, isE := r0.(*ssa.Extract)
+					fromInner := isE && ex.Tuple == ssa.Value(inner) && ex.Index == 0
+					if !fromInner && !isNilConst(r0) {
+						good = false
+					}
+					if isNilConst(r1) && fromInner {
+						// returning the ids with a constant nil error: only under the inner error being nil
+						if !condHas(edgeConds(ret.Block()), true, func(v ssa.Value) bool {
+							bo, ok := v.(*ssa.BinOp)
+							return ok && bo.Op == token.EQL && isNilConst(bo.Y) && dependsOnCall(bo.X, inner)
+						}) && !condHas(edgeConds(ret.Block()), false, func(v ssa.Value) bool {
+							bo, ok := v.(*ssa.BinOp)
+							return ok && bo.Op == token.NEQ && isNilConst(bo.Y) && dependsOnCall(bo.X, inner)
+						}) {
+							good = false
+						}
+					}
+				}
+				if good {
+					return true, ""
+				}
+			}
+		}
+		return false, "the conversion does not parse the ids with uuid.Parse in a form the rule recognises"
+	}
+	for _, ret := range returnsOf(f) {
+		rv := resolve(retResult(ret, 0))
+		if isNilConst(rv) {
+			continue
+		}
+		if _, isSl := rv.(*ssa.Slice); isSl {
+			return false, "the conversion returns a window of its result slice (ids after a skipped one are dropped, or zero ids are included)"
+		}
+		if mk, isMk := rv.(*ssa.MakeSlice); isMk {
+			if !sources(mk.Len)["param:"+f.Params[0].Name()] {
+				return false, "the result slice is not as long as the request's id list"
+			}
+			continue
+		}
+		return false, "the conversion's result is not the slice it filled"
+	}
+	return true, ""
+}
+
+// ---------------------------------------------------------------------------
+// C04.8: the stream adapter folds the per-id modify-deadline values of one request into ONE delay for all ids; that
+// delay must be the maximum requested (a positive value may only postpone: with the minimum, a zero riding in the same
+// request turns every extension into a nack). Accepted forms: a store guarded by `current < new`, the builtin max,
+// slices.Max over the request's values.
+func ruleC04_8(c *Ctx, r *Rep) {
+	f := r.Anchor("C04.8", "(*services.streamWrapper).adaptIn")
+	if f == nil {
+		return
+	}
+	sts := fieldStores(f, modPath+"/actions", "MessageStreamRequest")["DelaySeconds"]
+	if len(sts) == 0 {
+		r.Fail("C04.8", "C04.8:stream-delay", f.Pos(), "the stream adapter no longer sets DelaySeconds")
+		return
+	}
+	ok, why := true, ""
+	n := 0
+	for _, st := range sts {
+		if !sources(st.Val)["field:ModifyDeadlineSeconds"] {
+			continue // initialisation with a constant
+		}
+		n++
+		good := false
+		// (a) guarded by current < new
+		for _, cd := range edgeConds(st.Block()) {
+			nc := normCond(cd.V, cd.Pol)
+			bo, isB := nc.V.(*ssa.BinOp)
+			if !isB {
+				continue
+			}
+			isCur := func(v ssa.Value) bool {
+				u, ok := strip(v).(*ssa.UnOp)
+				if !ok || u.Op != token.MUL {
+					return false
+				}
+				fa, ok := u.X.(*ssa.FieldAddr)
+				return ok && fieldName(fa.X.Type(), fa.Field) == "DelaySeconds"
+			}
+			curX, curY := isCur(bo.X), isCur(bo.Y)
+			newX := !curX && sources(bo.X)["field:ModifyDeadlineSeconds"]
+			newY := !curY && sources(bo.Y)["field:ModifyDeadlineSeconds"]
+			op := bo.Op
+			if !nc.Pol {
+				// negate the comparison
+				op = map[token.Token]token.Token{token.LSS: token.GEQ, token.GEQ: token.LSS, token.GTR: token.LEQ, token.LEQ: token.GTR}[op]
+			}
+			if curX && newY && (op == token.LSS || op == token.LEQ) {
+				good = true
+			}
+			if newX && curY && (op == token.GTR || op == token.GEQ) {
+				good = true
+			}
+			if curX && newY && (op == token.GTR || op == token.GEQ) || newX && curY && (op == token.LSS || op == token.LEQ) {
+				ok, why = false, "the delay is lowered to the smallest requested value"
+			}
+		}
+		// (b)/(c) max forms
+		var walk func(v ssa.Value, d int)
+		seen := map[ssa.Value]bool{}
+		walk = func(v ssa.Value, d int) {
+			if v == nil || seen[v] || d > 10 {
+				return
+			}
+			seen[v] = true
+			if call, isC := v.(*ssa.Call); isC {
+				if bi, isB := call.Call.Value.(*ssa.Builtin); isB {
+					if bi.Name() == "max" {
+						good = true
+					}
+					if bi.Name() == "min" {
+						ok, why = false, "the delay is the minimum of the requested values"
+					}
+				}
+				if cal := call.Call.StaticCallee(); cal != nil && fnPkgPath(cal) == "slices" {
+					if strings.HasPrefix(cal.Name(), "Max") {
+						good = true
+					}
+					if strings.HasPrefix(cal.Name(), "Min") {
+						ok, why = false, "the delay is the minimum of the requested values"
+					}
+				}
+			}
+			if in, isI := v.(ssa.Instruction); isI {
+				for _, op := range in.Operands(nil) {
+					if *op != nil {
+						walk(*op, d+1)
+					}
+				}
+			}
+		}
+		walk(st.Val, 0)
+		if !good && ok {
+			ok, why = false, "the rule cannot see that the delay is the maximum of the requested values"
+		}
+	}
+	r.Check("C04.8", "C04.8:stream-delay-is-max", f.Pos(), ok && n > 0, "one delay for the request: the largest requested", "the stream adapter does not fold the request's modify-deadline values with max: "+why+" — a positive extension can shorten a lease (a zero in the same request nacks everything)")
+}
+
+// ---------------------------------------------------------------------------
+// C05.6: the predecessor of an ordered message is "the latest by published_at", so every published message needs its
+// own clock reading: the published_at of the message row, and the `now` handed to deliverToSubscription (which
+// becomes the delivery's published_at), are time.Now() taken inside PublishMessage.Execute — not a value supplied
+// by the caller (one stamp for a whole batch makes the lookup tie among the batch's messages).
+func ruleC05_6(c *Ctx, r *Rep) {
+	fn := r.Anchor("C05.6", fnPublish)
+	if fn == nil {
+		return
+	}
+	isFreshNow := func(v ssa.Value) bool {
+		call, ok := resolve(v).(*ssa.Call)
+		if !ok {
+			return false
+		}
+		cal := call.Call.StaticCallee()
+		return cal != nil && fnPkgPath(cal) == "time" && cal.Name() == "Now" && top(call.Parent()) == fn
+	}
+	n := 0
+	for _, s := range c.EntShape().Stmts {
+		if s.Table == "messages" && s.Kind == "create" && c.Owner(s) == fnPublish {
+			for _, m := range s.Mut("published_at", "set") {
+				n++
+				r.Check("C05.6", "C05.6:message.published_at=fresh-now", m.Pos, isFreshNow(m.Arg), "time.Now() per published message", "the message's published_at is not a clock reading taken for this message (a caller-supplied or shared stamp makes same-key messages of one request tie in the predecessor lookup)")
+			}
+		}
+	}
+	if del := c.Fn(fnDeliver); del != nil {
+		for _, ci := range callsIn(fn, true, func(cal *ssa.Function, _ ssa.CallInstruction) bool { return cal == del }) {
+			// the time parameter of deliverToSubscription
+			for i, p := range del.Params {
+				if typeIs(p.Type(), "time", "Time") && i < len(ci.Common().Args) {
+					n++
+					r.Check("C05.6", "C05.6:delivery.published_at=fresh-now", ci.Pos(), isFreshNow(ci.Common().Args[i]), "the same per-message clock reading", "the publish time handed to deliverToSubscription is not a clock reading taken for this message")
+				}
+			}
+		}
+	}
+	r.Floor("C05.6", n, 2)
+}
